@@ -43,7 +43,7 @@ Hows == {"write", "inv", "cancel", "panic"}
 Lds  == {"val", "err", "nf", "panic"}
 KeySeqs == {<<k>> : k \in K} \cup {<<k1, k2>> : k1 \in K, k2 \in K}
 Supplies == {<<>>} \cup {<<k>> : k \in K} \cup {<<0, 1>>}
-Shapes == {"map", "nil", "err", "panic"}
+Shapes == {"map", "nil", "err", "errnf", "panic"}
 
 A0 == [op |-> "", k |-> 0, v |-> 0, d |-> 0, dk |-> "", ks |-> <<>>, supply |-> <<>>, m |-> 0,
        iff |-> "", ifa |-> "", ld |-> "", shape |-> "", dt |-> 0, max2 |-> 0]
@@ -155,7 +155,8 @@ C10_BulkGet ==
              /\ Cardinality(calls) <= 1
              /\ \A l \in calls : SeqToSet(l.ks) = req \ hits
              /\ (req \ hits = {}) => calls = {}
-             /\ a.shape = "err" /\ req \ hits # {} => o.err = "err"]_vars
+             /\ a.shape = "err" /\ req \ hits # {} => o.err = "err"
+             /\ a.shape \in {"err", "errnf"} => \A k \in Keys(s) : s'.ent[k].p = s.ent[k].p /\ s'.ent[k].v = s.ent[k].v]_vars
 
 \* C11: refresh
 C11_ServeOld ==
